@@ -7,4 +7,7 @@ fn main() {
         .expect("Failed to execute git rev-parse HEAD.");
     let git_hash = String::from_utf8(output.stdout).unwrap().trim().to_string();
     println!("cargo:rustc-env=GIT_COMMIT={git_hash}");
+    // Verification hooks: declare the cfg names used by the guarded instrumentation
+    println!("cargo:rustc-check-cfg=cfg(kani)");
+    println!("cargo:rustc-check-cfg=cfg(ax_verif)");
 }
